@@ -677,6 +677,24 @@ def f_mean(a, axis=None, **kw):
     return s / n
 
 
+def f_average(a, axis=None, weights=None, **kw):
+    """numpy.average: sum(a*w)/sum(w) -- the division by the sum of the weights is kept (it is what distinguishes it from an explicit weighted sum);
+    a weight sum that is exactly zero raises ZeroDivisionError as numpy does"""
+    if weights is None:
+        return f_mean(a, axis=axis)
+    a = to_obj(a); w = to_obj(weights)
+    if w.shape != a.shape:
+        if axis is None or w.ndim != 1 or w.shape[0] != a.shape[axis]:
+            raise TypeError("Axis must be specified when shapes of a and weights differ.")
+        shp = [1] * a.ndim; shp[axis] = w.shape[0]
+        w = w.reshape(shp)
+    num = f_sum(a * w, axis=axis); den = f_sum(w * _np.ones(a.shape, dtype=object), axis=axis)
+    for d in _np.atleast_1d(_np.asarray(plain(den) if hasattr(den, "shape") else den, dtype=object)).ravel():
+        if bool(d == 0):
+            raise ZeroDivisionError("Weights sum to zero, can't be normalized")
+    return num / den
+
+
 def f_isscalar(x):
     return is_sym(x) or _np.isscalar(x)
 
@@ -909,7 +927,7 @@ def f_trapz(y, x=None, dx=1.0, axis=-1):
 FUNCS = {
     "amax": f_amax, "max": f_amax, "amin": f_amin, "min": f_amin, "argmax": f_argmax, "argmin": f_argmin,
     "any": f_any, "all": f_all, "where": f_where, "nonzero": f_nonzero, "clip": f_clip, "interp": f_interp,
-    "argsort": f_argsort, "sort": f_sort, "unique": f_unique, "mean": f_mean, "sum": f_sum, "cumsum": f_cumsum,
+    "argsort": f_argsort, "sort": f_sort, "unique": f_unique, "mean": f_mean, "average": f_average, "sum": f_sum, "cumsum": f_cumsum,
     "prod": f_prod, "linalg.inv": f_inv, "tensordot": f_tensordot, "dot": f_dot, "outer": f_outer,
     "allclose": f_allclose, "isclose": f_isclose, "linalg.matrix_rank": f_matrix_rank,
     "count_nonzero": f_count_nonzero, "diff": f_diff, "copy": f_copy,
